@@ -1,6 +1,7 @@
 (* C11 — clients sharing one core package keep working as more are generated.
    Only statements, [exact], and Print Assumptions live here. *)
 From PG Require Import Lib.Strs Model.Registry Proofs.Registry.
+From PG Require Model.GenFS Model.GenJoint Proofs.GenJoint.
 
 (* Full statement (FALSE on the current tree, see the refutation F11b; F11a and F11c are fixed):
      forall l h, Works (fold_left (step l) h init).
@@ -45,3 +46,28 @@ Theorem C11_guard_nonvacuous :
   guard l_ok h_ok = true /\ aliases (run l_ok h_ok) = Some [404; 409] /\ length (clients (run l_ok h_ok)) = 3%nat.
 Proof. exact guard_nonvacuous. Qed.
 Print Assumptions C11_guard_nonvacuous.
+
+(* JOINT HISTORY THEOREM of C10 and C11 (calls without injected faults; the file system decides between the
+   diff path and the direct path and drives the registry step): for every project, initial file system and
+   history of calls — any package names (invalid ones are rejected), force on/off, post-processing on/off, any
+   specs — that meets the F11b guard, every generated client finds its exception classes in the core, every
+   client reported as generated exists, and every path strictly below the project root was there initially or
+   is an allowed path (output package, core package, ancestor package directory / __init__.py) of one call.
+   Not covered: histories with injected faults (covered per call by the C10 theorems). *)
+Theorem C11_C10_joint_partial : forall pr s0 h,
+  Proofs.GenJoint.wf_project pr = true ->
+  Model.GenJoint.jguard_F11b pr (s0, Registry.init) h = true ->
+  Model.GenJoint.Joint pr s0 h (Model.GenJoint.jrun pr s0 h).
+Proof. exact Proofs.GenJoint.joint_history. Qed.
+Print Assumptions C11_C10_joint_partial.
+
+Theorem C11_C10_joint_nonvacuous :
+  Proofs.GenJoint.wf_project Proofs.GenJoint.pr_ex = true
+  /\ Model.GenJoint.jguard_F11b Proofs.GenJoint.pr_ex (Proofs.GenJoint.s0_ex, Registry.init) Proofs.GenJoint.h_ex = true
+  /\ aliases (snd (Model.GenJoint.jrun Proofs.GenJoint.pr_ex Proofs.GenJoint.s0_ex Proofs.GenJoint.h_ex)) = Some [404; 409]
+  /\ length (clients (snd (Model.GenJoint.jrun Proofs.GenJoint.pr_ex Proofs.GenJoint.s0_ex Proofs.GenJoint.h_ex))) = 2%nat
+  /\ (length (fst (Model.GenJoint.jrun Proofs.GenJoint.pr_ex Proofs.GenJoint.s0_ex Proofs.GenJoint.h_ex)) > 40)%nat
+  /\ Model.GenFS.lookup (Proofs.GenJoint.sR ++ [[75]])
+       (fst (Model.GenJoint.jrun Proofs.GenJoint.pr_ex Proofs.GenJoint.s0_ex Proofs.GenJoint.h_ex)) = Some (Model.GenFS.File 1).
+Proof. exact Proofs.GenJoint.joint_nonvacuous. Qed.
+Print Assumptions C11_C10_joint_nonvacuous.
